@@ -147,9 +147,9 @@ def _known_tables() -> tuple:
         p = os.path.join(os.path.dirname(os.path.dirname(os.path.abspath(__file__))), "spec", "known_functions.json")
         try:
             d = json.load(open(p))
-            _KNOWN = (set(d["functions"]), set(d.get("constants", [])))
+            _KNOWN = (set(d["functions"]), set(d.get("constants", [])), d.get("signatures", {}))
         except (OSError, ValueError, KeyError):
-            _KNOWN = (set(), set())
+            _KNOWN = (set(), set(), {})
     return _KNOWN
 
 
@@ -174,12 +174,12 @@ class Repo:
                 if fn.endswith(".py"):
                     paths.append(os.path.join(dirpath, fn))
         parsed = [self._parse(p) for p in paths]
-        known_f, known_c = _known_tables()
+        known_f, known_c, known_sigs = _known_tables()
         if known_f:
             from .inline import inline_package
             trees = {name: tree for (path, rel, name, is_pkg, src, tree, sha) in parsed}
             pk = {name: is_pkg for (path, rel, name, is_pkg, src, tree, sha) in parsed}
-            self.inline_log = inline_package(trees, pk, known_f, known_c)
+            self.inline_log = inline_package(trees, pk, known_f, known_c, known_sigs)
             parsed = [(path, rel, name, is_pkg, src, trees[name], sha) for (path, rel, name, is_pkg, src, tree, sha) in parsed]
         for rec in parsed:
             self._register(*rec)
@@ -341,6 +341,13 @@ class Repo:
         for fi in m.all_funcs:
             if fi.qualname == qual:
                 return fi
+        # moved to another module of the package (and imported back, or used from there): a private module-level function with this
+        # name that exists exactly once elsewhere is the same function
+        if "." not in qual:
+            hits = [fi for mm in self.modules.values() if mm is not m for fi in mm.all_funcs if fi.qualname == qual]
+            if len(hits) == 1:
+                self.consulted[hits[0].module.rel] = hits[0].module.sha256
+                return hits[0]
         raise AnalysisError(f"anchor function vanished: {module}:{qual}")
 
     def try_func(self, module: str, qual: str) -> Optional[FuncInfo]:
